@@ -391,6 +391,38 @@ def case_year_days(mon, fi, year):
     mon.cls("every-day-of-year", (fi, year), [meth, target, year])
 
 
+def case_year_fine(mon, fi, year):
+    """A whole calendar year walked in steps of a tenth of a day (3660
+    queries): the result never moves backwards.  The finders count periods
+    from a year with decimals built from the calendar date; a day-of-year
+    slip at a month boundary shows only when the point where the nearest
+    event changes falls inside the affected day, and only to queries inside
+    that day."""
+    from vpm.oracles import daycount as dc
+    meth, target, kind = FINDERS[fi]
+    j0 = dc.jdn(year, 1, 1) - 0.5
+    n = int((dc.jdn(year + 1, 1, 1) - dc.jdn(year, 1, 1)) * 10) + 10
+    prev = None
+    for k in range(n):
+        mon.evals += 1
+        q = j0 + 0.1 * k
+        try:
+            t, extra = call_finder(fi, q)
+        except Exception as ex:
+            mon.dev("finder.no-exception",
+                    {"finder": meth, "target": target, "query": q,
+                     "raised": repr(ex)})
+            prev = None
+            continue
+        if prev is not None:
+            mon.check("order.never-backwards", t >= prev - 1e-6,
+                      lambda: {"finder": meth, "target": target, "query": q,
+                               "year": year, "result": t, "previous": prev,
+                               "previous_query": q - 0.1})
+        prev = t
+    mon.cls("year-in-tenths-of-a-day", (fi, year), [meth, target, year])
+
+
 def case_targets(mon, fi, jde):
     """The target strings are a closed set: anything else - a prefix, a
     suffix, another case, an empty string, the two names run together - is
@@ -477,6 +509,7 @@ def case_seam(mon, fi, year):
 
 CASES = {"history": history.case, "position": case_position, "sweep": case_sweep, "event": case_event,
          "year_days": case_year_days, "seam": case_seam,
+         "year_fine": case_year_fine,
          "targets": case_targets}
 
 
@@ -520,6 +553,10 @@ def run(mon, spec):
     for y in years:
         mon.begin("year_days", [fi, y])
         case_year_days(mon, fi, y)
+    for y in [rng.randrange(-1999, 3999)
+              for _ in range(160 if full else 40)] + [1582, 1900, 2000]:
+        mon.begin("year_fine", [fi, y])
+        case_year_fine(mon, fi, y)
     seams = [1582, -1, 0, 1581, 1583, 1599, 1600, 1999, -1999, 3998,
              rng.randrange(-1999, 3999), rng.randrange(-1999, 3999)]
     if full:
